@@ -231,7 +231,23 @@ def prove(chk, prop, gen_files, extra_props=()):
     else:
         for n in names:
             chk.obligation(n, False, "not reached: %s does not compile" % os.path.basename(last_path))
-        failed.append(("coqc", os.path.basename(last_path), out[-1500:]))
+        extra_paths = {os.path.join(PROPS_OUT, e + ".v"): e for e in extra_props}
+        if last_path in extra_paths:
+            # a shared property file (e.g. Cover.v): name the theorem that no longer checks
+            bad = None
+            m = re.search(r"line (\d+)", out)
+            if m:
+                txt = open(last_path).read().split("\n")
+                for i in range(min(int(m.group(1)), len(txt)) - 1, -1, -1):
+                    mm_ = re.match(r"\s*(?:Theorem|Lemma|Corollary|Example)\s+([A-Za-z0-9_']+)", txt[i])
+                    if mm_:
+                        bad = mm_.group(1)
+                        break
+            for n in theorems_in(last_path):
+                chk.obligation(extra_paths[last_path] + "." + n, n != bad and bad is not None and theorems_in(last_path).index(n) < theorems_in(last_path).index(bad), "" if n != bad else "coqc: " + out[-300:])
+            failed.append(("proof", "%s.%s" % (extra_paths[last_path], bad or "v"), out[-1500:]))
+        else:
+            failed.append(("coqc", os.path.basename(last_path), out[-1500:]))
     return False, failed
 
 
